@@ -338,6 +338,12 @@ pub fn sweep(values_per_type: usize) -> (Vec<IoPlan>, Vec<(String, usize)>) {
                     p.rscript = vec![Act::Short(1); k];
                     p.rscript.push(Act::FailForever(KINDS[k % KINDS.len()]));
                     plans.push(p);
+                    if full_detail && k % 8 == 3 {
+                        let mut p = single(ty, c, v, "read_panic_at");
+                        p.rscript = vec![Act::Short(1); k];
+                        p.rscript.push(Act::Panic);
+                        plans.push(p);
+                    }
                 }
                 for (ki, kind) in KINDS.iter().enumerate() {
                     for k in [0usize, 1, len / 2, len - 1] {
@@ -437,6 +443,12 @@ pub fn sweep(values_per_type: usize) -> (Vec<IoPlan>, Vec<(String, usize)>) {
                     p.wscript = vec![Act::Short(1); k];
                     p.wscript.push(if k % 2 == 0 { Act::Fail(KINDS[(k / 2) % KINDS.len()]) } else { Act::FailForever(KINDS[(k / 2) % KINDS.len()]) });
                     plans.push(p);
+                    if full_detail && k % 8 == 3 {
+                        let mut p = single(ty, c, v, "write_panic_at");
+                        p.wscript = vec![Act::Short(1); k];
+                        p.wscript.push(Act::Panic);
+                        plans.push(p);
+                    }
                     if full_detail {
                         let mut p = single(ty, c, v, "write_eintr_at");
                         p.wscript = vec![Act::Short(1); k];
@@ -611,7 +623,7 @@ fn gen_script(rng: &mut Rng, reader: bool, expected_calls: usize, nfaults: usize
         let k = *rng.pick(&KINDS);
         let choice = if rng.chance(1, 12) { 5 } else { rng.below(5) };
         let act = match choice {
-            5 => Act::Reenter,
+            5 => if rng.chance(1, 3) { Act::Panic } else { Act::Reenter },
             0 if enabled[0] => Act::Short(rng.range(1, 100)),
             1 if enabled[1] && !reader => Act::Zero,
             2 if enabled[2] => Act::Eintr,
